@@ -267,12 +267,45 @@ def directed(ctx):
                     mask[rng.randrange(len(vals))] = True
                 for dt in (numpy.int64, numpy.int8, numpy.uint8, numpy.int16, numpy.uint16, numpy.uint32):
                     cases.append((Case(cmd, params, [numpy.ma.array(numpy.array(vals, dtype=dt), mask=mask)]), "narrow"))
+    # statistics of fields whose mean is large against their spread (exactly representable: 2^30 + small even numbers), and of integer fields whose
+    # squares leave a 16-bit type: mean and standard deviation are those of the field
+    zcmds = {k: v for k, v in ints.items() if "ZScore" in k}
+    for cmd, plist in zcmds.items():
+        for params in plist:
+            for vals in ([0, 2, 4, 6], [6, 0, 0, 2, 4, 6], [2, 2, 4, 0, 12]):
+                cases.append((Case(cmd, params, [numpy.ma.array(numpy.array([2.0 ** 30 + v for v in vals]))]), "offset"))
+            for vals in ([100, 200, 300, 250, 150], [181, 182, 183, 190]):
+                for dt in (numpy.int64, numpy.int16, numpy.uint16, numpy.uint8 if max(vals) < 256 else numpy.int32):
+                    cases.append((Case(cmd, params, [numpy.ma.array(numpy.array(vals, dtype=dt))]), "narrow"))
     for cmd, key in (("NormalizeMeanToMid", "NormalValues"), ("CvtToFuzzyMeanToMid", "FuzzyValues")):
         vals5 = [0, 0.25, 0.5, 0.75, 1] if key == "NormalValues" else [-1, -0.5, 0, 0.5, 1]
         for vals in ([0.0, 0.0, 2.0, 3.0, 5.0, 7.0], [0.0, -1.0, -4.0, -2.0, 0.0, -7.0], [0.0, 1.5, 0.0, 4.0, 2.0], [3.0, 0.0, -2.0, 5.0, 0.0]):
             for iz in (True, False):
                 cases.append((Case(cmd, {"IgnoreZeros": iz, key: vals5}, [numpy.ma.array(numpy.array(vals))]), "zeros"))
     return cases
+
+
+def single_precision_categories(ctx):
+    """category codes that are not exactly representable (0.1, 0.2, 0.3) in a single-precision field: a cell holding the code gets the code's value,
+    exactly as in the double-precision field with the same nominal values"""
+    codes = [0.1, 0.2, 0.3, 2.5, 7.0, 0.7]
+    cells = [0.1, 0.3, 0.2, 2.5, 0.7, 7.0, 0.5, 0.1]
+    mask = [False] * 7 + [True]
+    for cmd, vkey, dkey in (("NormalizeCat", "NormalValues", "DefaultNormalValue"), ("CvtToFuzzyCat", "FuzzyValues", "DefaultFuzzyValue")):
+        for raw in ([0.1, 0.2, 0.3], [0.3, 2.5, 0.1, 7.0], [0.7]):
+            params = {"RawValues": raw, vkey: [0.25 * (k + 1) - 0.5 for k in range(len(raw))], dkey: -0.75}
+            outs = {}
+            for dt in (numpy.float64, numpy.float32):
+                c = Case(cmd, params, [numpy.ma.array(numpy.array(cells, dtype=dt), mask=mask)])
+                outs[dt] = eems.run_impl(c)
+                ctx.case("f32-cat %s %r %s" % (cmd, raw, dt.__name__), sample=None)
+            ctx.count("c08_single_precision_category_cases")
+            want = [None if m else next((params[vkey][raw.index(v)] for _ in [0] if v in raw), -0.75) for v, m in zip(cells, mask)]
+            for dt, o in outs.items():
+                got = o["vis"][3] if o["status"] == "ok" else eems.impl_summary(o)
+                if got != want:
+                    ctx.fail("%s on a %s field holding the category codes %r: %r, expected %r" % (cmd, dt.__name__, raw, got, want),
+                             {"cmd": cmd, "params": {k: repr(v) for k, v in params.items()}, "cells": cells, "dtype": dt.__name__})
 
 
 def after_write(ctx, count):
@@ -323,6 +356,9 @@ def run(ctx):
     eems.run_stream(ctx, model, gen(ctx, eems.CONVERSIONS, n), "exec:conversions", on_result=orc)
     # directed cases: compared with the model, the reference mappings and - for the narrow integer types - with the same values held as int64
     dcases = directed(ctx)
+    # (fields offset by 2^30: the thresholds mean ± z·deviation are rounded at that magnitude, so results carry errors near 1e-8; compared at 1e-6)
+    eems.run_stream(ctx, model, [c for c, k in dcases if k == "offset"], "exec:conversions-directed-offset", tol=1e-6, narrow=False)
+    dcases = [(c, k) for c, k in dcases if k != "offset"]
     kept, outs, _ = eems.run_stream(ctx, model, [c for c, _ in dcases], "exec:conversions-directed", on_result=orc, narrow=False)
     by64 = {}
     for c, out in zip(kept, outs):
@@ -335,6 +371,7 @@ def run(ctx):
             d = eems._same(by64[key], out)
             if d:
                 ctx.fail("%s: the same integer values stored as %s give a different result (%s)" % (c.cmd, c.inputs[0].dtype, d), c.describe())
+    single_precision_categories(ctx)
     relational(ctx, ctx.budget(40, 1200))
     after_write(ctx, ctx.budget(30, 800))
     numeric.focus_search(ctx, model, lambda cmds, f: gen(ctx, [c for c in cmds if c in eems.CONVERSIONS], n * f), orc)
